@@ -213,9 +213,49 @@ def gen_paste(frags):
                 yield {'text': f, 'as': how, 'colour': colour}
 
 
+def gdb_flavour_child(tier):
+    """Runs in a child interpreter that can import the GDB model: inside GDB the help texts
+    use `(gdb) wl<cmd>` and colour defaults differ; lock-step over every command once and in pairs."""
+    import json
+    sut.bind(fake_gdb=True)
+    sut.ensure_protocols()
+    from core.util import check_gdb
+    assert check_gdb()
+    evs = [['cmd', c] for c in COMMANDS]
+    n = 0
+    viols = []
+    hists = [[e] for e in evs] + [[a, b] for a in evs[:12] for b in evs if a[1].startswith(('help', 'filter', 'break'))]
+    for h in hists:
+        V, _ = run_hist(h)
+        n += 1
+        for v in V:
+            viols.append([v.kind, v.case, v.detail])
+    print(json.dumps({'evaluations': n, 'violations': viols[:10]}))
+
+
+def gdb_flavour_part(run, tier):
+    import json
+    import subprocess
+    import sys
+    p = subprocess.run([sys.executable, '-m', 'mc.props.c17', '--gdb-flavour', tier], capture_output=True, text=True,
+                       cwd=sut.VERIF, timeout=600)
+    res = explore.Result()
+    if p.returncode != 0:
+        raise explore.HarnessError('gdb flavour child failed: ' + p.stderr[-600:])
+    doc = json.loads(p.stdout.strip().split('\n')[-1])
+    res.evaluations = res.states = res.transitions = res.validated = doc['evaluations']
+    res.nontrivial = doc['evaluations']
+    for k, c, d in doc['violations']:
+        c = dict(c, gdb_flavour=True)
+        res.violations.append(Violation(k, c, d))
+    res.samples = [{'gdb_flavour_histories': doc['evaluations']}]
+    run.add_part('gdb_flavour', res)
+
+
 def run(run, tier, seed):
     sut.bind()
     sut.ensure_protocols()
+    gdb_flavour_part(run, tier)
     d_un, d_me = (1, 3) if tier == 'quick' else (3, 5)
     res = explore.bfs(make_expand(tier, False), d_un, seed=seed, merge=False, bound={'depth': d_un, 'merged': False})
     run.add_part('lockstep_unmerged', res)
@@ -246,4 +286,24 @@ def replay(case):
     sut.ensure_protocols()
     if 'text' in case:
         return eval_paste(case).viols
+    if case.get('gdb_flavour'):
+        import subprocess
+        import sys
+        import json
+        p = subprocess.run([sys.executable, '-m', 'mc.props.c17', '--gdb-flavour-one', json.dumps(case['history'])],
+                           capture_output=True, text=True, cwd=sut.VERIF, timeout=600)
+        doc = json.loads(p.stdout.strip().split('\n')[-1])
+        return [Violation(k, c, d) for k, c, d in doc['violations']]
     return run_hist(case['history'])[0]
+
+
+if __name__ == '__main__':
+    import sys
+    import json
+    if sys.argv[1] == '--gdb-flavour':
+        gdb_flavour_child(sys.argv[2])
+    elif sys.argv[1] == '--gdb-flavour-one':
+        sut.bind(fake_gdb=True)
+        sut.ensure_protocols()
+        V, _ = run_hist(json.loads(sys.argv[2]))
+        print(json.dumps({'violations': [[v.kind, v.case, v.detail] for v in V]}))
